@@ -545,9 +545,19 @@ def add_targets(E, spec, pid):
         stalled = z3.And(env.present(o[p.oid].get("transport")), z3.Not(o[p.oid]["handshake_complete"].z))
         return z3.And(z3.Implies(stalled, ctx.getf(tcp, "g_closed").z),
                       z3.Implies(o[p.oid]["handshake_complete"].z, z3.And(ctx.getf(tcp, "g_closed").z == o[tcp.oid]["g_closed"].z, ctx.getf(tcp, "g_out").z == o[tcp.oid]["g_out"].z)))
+    def to_no_plaintext(ctx, old, args, outcome):
+        """whatever reaches the TCP transport is ciphertext OpenSSL produced (bio_read), never bytes the protocol made up itself"""
+        p = args[0]
+        h = ctx.heap[p.oid]
+        tcp, conn = h["g_tcp"], h["g_conn"]
+        o = old.snap
+        c0, c1, t0, t1 = o[conn.oid], ctx.heap[conn.oid], o[tcp.oid], ctx.heap[tcp.oid]
+        newly = z3.SubString(c1["g_cipher_read"].z, z3.Length(c0["g_cipher_read"].z), z3.Length(c1["g_cipher_read"].z))
+        return t1["g_out"].z == z3.If(t0["g_closed"].z, t0["g_out"].z, z3.Concat(t0["g_out"].z, newly))
     contracts["_handle_handshake_timeout"] = Contract(
         f"{TP}._handle_handshake_timeout", make_args=to_args,
         ensures=[("[INV] invariant preserved", inv_post), ("[C15] never raises", no_raise),
+                 ("[C20] the handshake timer puts nothing on the wire in the clear: the TCP transport receives only ciphertext produced by OpenSSL (no Gemini response to a peer that has not established TLS)", to_no_plaintext),
                  ("[C15] a peer that has not completed the handshake is disconnected when the handshake timer fires; a completed handshake is left alone", to_post)])
 
     def cl_args(ctx):
